@@ -203,7 +203,8 @@ class NioWalk:
                 elif c == "syscall::unix::reset_errno":
                     errno0 = 1
                 elif c == "syscall::unix::set_errno":
-                    errno0 = 0
+                    # reset_errno() is set_errno(0): written out, it is the same reset
+                    errno0 = 1 if (t.get("args") and str(op_const(t["args"][0])) == "0") else 0
                 elif c == "syscall::unix::set_non_blocking":
                     if blocking is False:
                         self.ev("mode-change-when-nonblocking", bid, "set_non_blocking on a descriptor the caller already made non-blocking")
